@@ -203,6 +203,41 @@ macro_rules! gen_float_mod {
                     }
                 }
             }
+            impl D {
+                /// bit patterns of `n` samples drawn through `Distribution::sample_iter`
+                pub fn iter_bits<R: Rng>(&self, r: &mut R, n: usize) -> Vec<u64> {
+                    macro_rules! it {
+                        ($d:expr) => {
+                            Distribution::<F>::sample_iter($d, r).take(n).map(|x: F| (x as f64).to_bits()).collect()
+                        };
+                    }
+                    match self {
+                        D::StandardNormal => it!(StandardNormal),
+                        D::Exp1 => it!(Exp1),
+                        D::Normal(d) => it!(d),
+                        D::LogNormal(d) => it!(d),
+                        D::Exp(d) => it!(d),
+                        D::Gamma(d) => it!(d),
+                        D::ChiSquared(d) => it!(d),
+                        D::StudentT(d) => it!(d),
+                        D::FisherF(d) => it!(d),
+                        D::Beta(d) => it!(d),
+                        D::Pert(d) => it!(d),
+                        D::Triangular(d) => it!(d),
+                        D::Cauchy(d) => it!(d),
+                        D::Pareto(d) => it!(d),
+                        D::Weibull(d) => it!(d),
+                        D::Gumbel(d) => it!(d),
+                        D::Frechet(d) => it!(d),
+                        D::SkewNormal(d) => it!(d),
+                        D::InverseGaussian(d) => it!(d),
+                        D::Nig(d) => it!(d),
+                        D::Poisson(d) => it!(d),
+                        D::Zipf(d) => it!(d),
+                        D::Zeta(d) => it!(d),
+                    }
+                }
+            }
             fn ulp(x: F) -> F {
                 let x = x.abs();
                 if x == 0.0 {
@@ -372,6 +407,19 @@ impl Dist {
             Dist::F64(d) => d.sample(r),
             Dist::U(d) => d.sample(r) as f64,
         }
+    }
+    pub fn iter_hashes<R: Rng>(&self, r: &mut R, n: usize) -> Vec<u64> {
+        let bits: Vec<u64> = match self {
+            Dist::F32(d) => d.iter_bits(r, n),
+            Dist::F64(d) => d.iter_bits(r, n),
+            Dist::U(d) => match d {
+                DU::Binomial(b) => b.sample_iter(r).take(n).collect(),
+                DU::Geometric(b) => b.sample_iter(r).take(n).collect(),
+                DU::StandardGeometric => StandardGeometric.sample_iter(r).take(n).collect(),
+                DU::Hypergeometric(b) => b.sample_iter(r).take(n).collect(),
+            },
+        };
+        bits.into_iter().map(|b| (0xcbf29ce484222325u64 ^ b).wrapping_mul(0x100000001b3)).collect()
     }
     pub fn debug(&self) -> String {
         match self {
